@@ -7,6 +7,7 @@ operands through comparisons with 0, so its result is decided by the sign classe
 the exact result's sign.  All non-finite cases are compared with IEEE semantics (inf - inf = NaN, 0 * inf = NaN,
 x / 0 = +-inf by the sign of x, 0 / 0 = NaN, n / inf = 0)."""
 import itertools
+import re
 import math
 
 import tables
@@ -187,4 +188,31 @@ def run(ctx, F, rule="E-TABLE.i64"):
         ctx.ob(rule, "%s:%s" % (rule, op), not fails,
                ("<I64 as %s>::%s (%s): %d abstract case(s) disagree with exact arithmetic saturated to +-inf; first: %s"
                 % (tr, op, F.where(fid), len(fails), " || ".join(fails[:3]))) if fails else "all sign-class cases agree")
+    return n
+
+
+def check_f64_constructors(ctx, F, rule="E-NUM.f64"):
+    """`F64` keeps its values normalised (one zero, one NaN) so that structural equality of terminals is numeric
+    equality.  The normalisation lives in `From<f64>`; every other place that builds an `F64` must do so from a
+    constant or go through `From` -- a raw `F64(x)` of a computed / parsed value admits `-0.0` and signed NaNs as
+    additional, unequal terminals."""
+    from lib import cfg
+    n = 0
+    bad = []
+    for fid, m in sorted(F.mir.items()):
+        if not fid.startswith("oxidd_rules_mtbdd::"):
+            continue
+        for b in m["blocks"]:
+            if b["c"]:
+                continue
+            for s in b["s"]:
+                rv = s.get("rv") or {}
+                if rv.get("k") == "aggr" and str(rv.get("adt", "")).endswith("::terminal::f64::F64"):
+                    n += 1
+                    op = rv["ops"][0]
+                    if "c" not in op and not re.search(r"F64 as (std|core)::convert::From(<f64>)?>::from$", F.nice(fid)):
+                        bad.append(F.nice(fid))
+    ctx.ob(rule, rule + ":constructors", not bad and n >= 4,
+           ("F64 is built from a non-constant value outside From<f64> in %s: the value is not normalised (-0.0, signed NaN)"
+            % sorted(set(bad))) if bad else "%d constructions of F64: constants or From<f64>" % n)
     return n
